@@ -21,6 +21,7 @@ mod c13;
 mod c10;
 mod c09;
 mod c14;
+mod c08;
 
 pub use util::*;
 
@@ -50,6 +51,7 @@ fn props() -> Vec<Prop> {
         Prop { id: "C10", run: c10::run, gen: c10::gen },
         Prop { id: "C09", run: c09::run, gen: c09::gen },
         Prop { id: "C14", run: c14::run, gen: c14::gen },
+        Prop { id: "C08", run: c08::run, gen: c08::gen },
     ]
 }
 
